@@ -25,11 +25,10 @@ inductive Cmp where
   deriving Repr, DecidableEq
 
 /-- conditions: comparisons of an address column (`sip` / `dip`) with an address literal (hex, 8 or
-    32 digits), membership of an address column in a network (`snet` / `dnet`, prefix length a
-    multiple of 4 bits), of a numeric column (`dport` / `proto`) with a number; `!`, `&`, `|` -/
+    32 digits), membership of an address column in a network (`snet` / `dnet`, any prefix length), of a numeric column (`dport` / `proto`) with a number; `!`, `&`, `|` -/
 inductive Cond where
   | ip (src : Bool) (c : Cmp) (v : String)
-  | net (src : Bool) (c : Cmp) (v : String) (nib : Nat)   -- `snet` / `dnet`: network `v/(4*nib)`
+  | net (src : Bool) (c : Cmp) (v : String) (bits : Nat)   -- `snet` / `dnet`: network `v/bits`
   | num (port : Bool) (c : Cmp) (v : Nat)
   | not (a : Cond)
   | and (a b : Cond)
@@ -44,10 +43,15 @@ def Cmp.eval : Cmp → Nat → Nat → Bool
   | .le, a, b => decide (a ≤ b)
   | .ge, a, b => decide (a ≥ b)
 
-/-- address `a` lies in the network given by the first `nib` hex digits of `v`: same family (same
-    width) and the same leading digits -/
-def inNetHex (a v : String) (nib : Nat) : Bool :=
-  a.length == v.length && a.toList.take nib == v.toList.take nib
+def hexDigit (c : Char) : Nat :=
+  if '0' ≤ c ∧ c ≤ '9' then c.toNat - '0'.toNat else if 'a' ≤ c ∧ c ≤ 'f' then c.toNat - 'a'.toNat + 10 else 0
+
+/-- numeric value of a hex string (big endian) -/
+def hexVal (s : String) : Nat := s.toList.foldl (fun a c => 16 * a + hexDigit c) 0
+
+/-- address `a` lies in the network `v/bits`: same family (same width) and the same leading `bits` bits -/
+def inNetHex (a v : String) (bits : Nat) : Bool :=
+  a.length == v.length && hexVal a / 2 ^ (4 * v.length - bits) == hexVal v / 2 ^ (4 * v.length - bits)
 
 /-- **denotational semantics of a condition on a flow.** An address comparison `=` holds iff the
     column equals the literal (in particular never across IP families), `!=` is its complement;
@@ -59,11 +63,11 @@ def sem : Cond → Flow → Bool
     | .eq => a == v
     | .ne => a != v
     | _ => false
-  | .net src c v nib, f =>
+  | .net src c v bits, f =>
     let a := if src then f.sip else f.dip
     match c with
-    | .eq => inNetHex a v nib
-    | .ne => !inNetHex a v nib
+    | .eq => inNetHex a v bits
+    | .ne => !inNetHex a v bits
     | _ => false
   | .num port c v, f => c.eval (if port then f.dport else f.proto) v
   | .not a, f => !sem a f
@@ -183,7 +187,7 @@ def isHexAddr (s : String) : Bool :=
 /-- conditions of the (simple) grammar: `=` / `!=` on addresses, numbers within the column width -/
 def Cond.ok : Cond → Bool
   | .ip _ c v => (c == .eq || c == .ne) && isHexAddr v
-  | .net _ c v nib => (c == .eq || c == .ne) && isHexAddr v && decide (nib ≤ v.length)
+  | .net _ c v bits => (c == .eq || c == .ne) && isHexAddr v && decide (bits ≤ 4 * v.length)
   | .num port _ v => if port then decide (v < 65536) else decide (v < 256)
   | .not a => a.ok
   | .and a b => a.ok && b.ok
